@@ -37,9 +37,22 @@ lines.append("|---|---|---|")
 for name, props in sorted(table.items()):
     lines.append("| `%s` | %s | %s |" % (name, " ".join(props), verdicts(os.path.join("mutants", name), props)))
 lines.append("")
-nc = sum(1 for p, r in last.items() for v in r.values() if v["verdict"].startswith("CAUGHT"))
-nm = sum(1 for p, r in last.items() for v in r.values() if v["verdict"].startswith("MISSED"))
-lines.append("Last recorded runs: %d (patch, check) pairs caught, %d missed (`mutants/last_run.json`; `mutants/run.py --scratch -j 3` re-runs them on scratch worktrees)." % (nc, nm))
+listed = set()
+for d in glob.glob("seeded/*/meta.json"):
+    m = json.load(open(d))
+    cur = os.path.join(os.path.dirname(d), "patch.current.diff")
+    path = cur if os.path.exists(cur) else os.path.join(os.path.dirname(d), "patch.diff")
+    for c in m.get("checks", [m["property"]]): listed.add((path, c))
+for name, props in table.items():
+    for c in props: listed.add((os.path.join("mutants", name), c))
+nc = sum(1 for (p, c) in listed if last.get(p, {}).get(c, {}).get("verdict", "").startswith("CAUGHT"))
+nm = sum(1 for (p, c) in listed if last.get(p, {}).get(c, {}).get("verdict", "").startswith("MISSED"))
+extra = sorted((p, c) for p, r in last.items() for c, v in r.items() if (p, c) not in listed and v["verdict"].startswith("MISSED(rc=0)") and os.path.exists(p))
+lines.append("Last recorded runs: %d listed (patch, check) pairs caught, %d missed (`mutants/last_run.json`; `mutants/run.py --scratch -j 3` re-runs them on scratch worktrees)." % (nc, nm))
+if extra:
+    lines.append("")
+    lines.append("Pairs that were also tried because the change touches a neighbouring property, missed, and are therefore not listed as deciding checks: " +
+                 ", ".join("`%s` by %s" % (os.path.basename(os.path.dirname(p)) if p.startswith("seeded/") else os.path.basename(p), c) for p, c in extra) + ".")
 block = "\n".join(lines)
 s = open("DESIGN.md").read()
 s2 = re.sub(r"<!-- SENSITIVITY:BEGIN -->.*?<!-- SENSITIVITY:END -->", "<!-- SENSITIVITY:BEGIN -->\n" + block + "\n<!-- SENSITIVITY:END -->", s, flags=re.S)
